@@ -38,7 +38,35 @@ fn walk_exact<I: ExactSizeIterator>(it: &mut I, limit: usize, items: &mut Vec<I:
     ok
 }
 
+/// A tracked type whose `PartialEq` is not reflexive (a float field holding NaN), in a world of its own: "unequal" is
+/// what `!=` says, so a real change must be reported with the old and the new value, and the snapshot must follow.
+/// `k` varies the other field's values.
+fn nan_side(k: u32, out: &mut Out) {
+    #[derive(Clone, PartialEq, Debug)]
+    struct Fx(f32, u32);
+    let mut w = World::new();
+    let mut tr = ChangeTracker::<Fx>::new();
+    let a = w.spawn((Fx(f32::NAN, k),));
+    let b = w.spawn((Fx(1.5, k + 1),));
+    drop(tr.track(&mut w));
+    w.get::<&mut Fx>(a).unwrap().1 = k + 10;
+    w.get::<&mut Fx>(b).unwrap().1 = k + 11;
+    let mut got: Vec<(u64, u32, u32)> = tr.track(&mut w).changed().map(|(e, o, n)| (e.to_bits().into(), o.1, n.1)).collect();
+    got.sort();
+    let mut want: Vec<(u64, u32, u32)> = vec![(a.to_bits().into(), k, k + 10), (b.to_bits().into(), k + 1, k + 11)];
+    want.sort();
+    if got != want {
+        out.flag(format!("C18: changed() with a component that is not equal to itself (NaN field): reported {:?}, expected {:?}", got, want));
+    }
+    w.get::<&mut Fx>(a).unwrap().1 = k + 20;
+    let got2: Vec<(u32, u32)> = tr.track(&mut w).changed().filter(|(e, _, _)| *e == a).map(|(_, o, n)| (o.1, n.1)).collect();
+    if got2 != vec![(k + 10, k + 20)] {
+        out.flag(format!("C18: second change of the NaN-bearing component: reported {:?}, expected [({}, {})]", got2, k + 10, k + 20));
+    }
+}
+
 pub fn run(args: &[u64], out: &mut Out) {
+    nan_side(args.len() as u32, out);
     let mut world = World::new();
     let mut tracker = ChangeTracker::<Tk>::new();
     let mut hs: Vec<Entity> = Vec::new();
